@@ -436,6 +436,13 @@ def parallel_cases(ctx, cases, analyse, workers=14, enc=0):
             with ctx.lock:
                 ctx.enc_compared += 1
         return True
+    def cost(c):
+        cfg = c['cfg']
+        try:
+            return -(int(cfg.get('n', 1)) * sum(int(mm.get('m', 1)) for mm in cfg.get('members', [{}])))
+        except Exception:
+            return 0
+    cases = sorted(cases, key=cost)    # the expensive configurations first, so that the tail of the run is not a few long sessions
     with concurrent.futures.ThreadPoolExecutor(max_workers=workers) as ex:
         futs = [ex.submit(work, c) for c in cases]
         for f, c in zip(futs, cases):
